@@ -97,7 +97,9 @@ func (a *ConstFuncParamAnnotator) VisitFuncDecl(decl *ast.FuncDecl) ast.VisitRes
 
 func (a *ConstFuncParamAnnotator) VisitFuncCall(call *ast.FuncCall) ast.VisitResult {
 	var isConst map[string]bool
-	if attachement, ok := a.CurrentModule.Ast.GetMetadataByKind(call.Func, ConstFuncParamMetaKind); ok {
+	// the table of the function that is being analysed is not final yet:
+	// for a recursive call every parameter has to count as not constant
+	if attachement, ok := a.CurrentModule.Ast.GetMetadataByKind(call.Func, ConstFuncParamMetaKind); ok && call.Func != a.currentDecl {
 		isConst = attachement.(ConstFuncParamMeta).IsConst
 	}
 
